@@ -268,7 +268,7 @@ pub fn compare_stats(pfx: &str, ex: &StatsExpect, x: &StatsObs, opts: &StatsOpts
 pub fn compare_opreturn(pfx: &str, m: &Model, s: u64, e: u64, o: &RunOutcome, st: &mut Stats) -> Vec<Violation> {
     let (lines, optional) = m.opreturn(s, e);
     st.abstain("opreturn: OP_RETURN script that is not exactly one push", optional.len() as u64);
-    let got: Vec<String> = o.plain_stdout_lines().into_iter().filter(|l| !l.is_empty()).collect();
+    let got: Vec<String> = o.opreturn_records();
     // walk: got must be `lines` with optional extra lines whose prefix matches an optional slot at that position
     let mut gi = 0usize;
     let mut oi = 0usize;
@@ -327,8 +327,33 @@ pub fn compare_with_model(pfx: &str, m: &Model, r: &RunSpec, o: &RunOutcome, opt
             };
             let (rows, tainted) = m.unspent_rows(s, e);
             if tainted {
-                st.abstain("unspent: address of an output unconstrained", 1);
-                return vec![];
+                // rows of outpoints with an unconstrained address are neither required nor forbidden
+                let u = m.utxo(s, e);
+                st.abstain("unspent: row of an output whose address is unconstrained", u.unknown.len() as u64);
+                let mut filtered = o.clone();
+                for f in run_files(o, "unspent") {
+                    let t = String::from_utf8_lossy(f.3).into_owned();
+                    let keep: Vec<&str> = t
+                        .lines()
+                        .enumerate()
+                        .filter(|(i, l)| {
+                            if *i == 0 {
+                                return true;
+                            }
+                            let mut c = l.split(';');
+                            let key = (c.next().unwrap_or("").to_string(), c.next().and_then(|x| x.parse::<u32>().ok()).unwrap_or(u32::MAX));
+                            !u.unknown.contains(&key)
+                        })
+                        .map(|(_, l)| l)
+                        .collect();
+                    let mut body = keep.join("\n");
+                    body.push('\n');
+                    filtered.dump.insert(f.2.clone(), body.into_bytes());
+                }
+                return match compare_rowset(pfx, "unspent", "txid;indexOut;height;value;address", &rows, &filtered) {
+                    Ok(_) => vec![],
+                    Err(x) => vec![x],
+                };
             }
             match compare_rowset(pfx, "unspent", "txid;indexOut;height;value;address", &rows, o) {
                 Ok(_) => vec![],
